@@ -808,6 +808,9 @@ write_constant_info (const gchar    *namespace,
   xml_start_element (file, "constant");
   xml_printf (file, " name=\"%s\"", name);
 
+  if (g_base_info_is_deprecated ((GIBaseInfo *)info))
+    xml_printf (file, " deprecated=\"1\"");
+
   type = g_constant_info_get_type (info);
   xml_printf (file, " value=\"");
 
